@@ -501,6 +501,158 @@ def exact_case(ctx, ebatch, case, brute_budget=1500):
     ebatch.add(case, impl, brute)
 
 
+# ------------------------------------------------------------------------------------------------
+# GenotypeVcfWriter.write_genotypes on crafted likelihood triples: GL / GQ / threshold on the integer side
+# ------------------------------------------------------------------------------------------------
+
+def crafted_triples(rng, n):
+    out = []
+    while len(out) < n:
+        r = rng.random()
+        if r < 0.30:
+            x = [rng.random() + 1e-3 for _ in range(3)]; s = sum(x); l = [v / s for v in x]
+        elif r < 0.55:
+            # peaked: the other mass is 10^-k (+ noise), so GQ walks through the whole range
+            k = rng.uniform(0.0, 16.0); m = 10.0 ** (-k); a = m * rng.random()
+            l = [a, m - a, 1.0 - m]; rng.shuffle(l)
+        elif r < 0.65:
+            # other mass next to a rounding boundary of GQ: 10^(-(n+0.5)/10) * (1 +- delta)
+            nq = rng.randrange(0, 120); m = 10.0 ** (-(nq + 0.5) / 10.0) * (1.0 + rng.choice([-1, 1]) * rng.choice([1e-3, 1e-6, 1e-9]))
+            a = m * rng.random(); l = [a, m - a, 1.0 - m]; rng.shuffle(l)
+        elif r < 0.75:
+            l = rng.choice([[0.0, 0.0, 1.0], [0.0, 1.0, 0.0], [0.0, 0.0, 0.0], [0.5, 0.5, 0.0], [1 / 3, 1 / 3, 1 / 3], [0.25, 0.5, 0.25],
+                            [1e-300, 1.0, 5e-324], [5e-324, 5e-324, 1.0], [1e-200, 1.0 - 1e-12, 1e-12], [0.0, 1e-310, 1.0]])
+            l = list(l)
+        elif r < 0.85:
+            # not normalised (the writer takes what it is given): masses above 1 give GQ <= 0
+            l = [rng.choice([0.1, 0.5, 0.7, 0.9, 1.0, 1.3, 2.0, 7.0]) * (1 + 1e-3 * rng.random()) for _ in range(3)]
+        else:
+            # (the model's exact integer search is linear in GQ: very small masses are kept rare)
+            e = 10.0 ** (rng.uniform(-320, -40) if rng.random() < 0.1 else rng.uniform(-40, -1)); l = [e, e * rng.random(), 1.0]; rng.shuffle(l)
+        out.append([float(v) for v in l])
+    return out
+
+
+def exact_gq(q):
+    """min(round(-10 log10 q), 10000) with 60-digit decimals (independent of the Lean integer search); None = too close to a tie"""
+    import decimal
+    if q <= 0:
+        return 10000
+    with decimal.localcontext() as c:
+        c.prec = 60
+        c.prec = 1200
+        dq = decimal.Decimal(q.numerator) / decimal.Decimal(q.denominator)   # a double: exact with < 1100 digits
+        c.prec = 60
+        f = -10 * (+dq).log10()
+        fl = f.to_integral_value(rounding=decimal.ROUND_FLOOR)
+        frac = f - fl
+        if abs(frac - decimal.Decimal("0.5")) < decimal.Decimal("1e-9"):
+            return None
+        n = int(fl) + (1 if frac > decimal.Decimal("0.5") else 0)
+    return min(n, 10000)
+
+
+def writer_cases(ctx, n):
+    from fractions import Fraction
+    from whatshap.vcf import VcfReader, GenotypeVcfWriter
+    from whatshap.core import PhredGenotypeLikelihoods
+    from whatshap.cli.genotype import determine_genotype
+    rng = ctx.rng
+    d = os.path.join(ctx.workdir(), "writer"); os.makedirs(d, exist_ok=True)
+    inp, outp = os.path.join(d, "in.vcf"), os.path.join(d, "out.vcf")
+    triples = crafted_triples(rng, n)
+    thrs = [rng.choice([0, 0, 1, 3, 5, 10, 13, 20, 30, 40, 60, 90, 150]) for _ in triples]
+    with open(inp, "w") as f:
+        f.write("##fileformat=VCFv4.2\n##contig=<ID=chr1,length=100000000>\n##FORMAT=<ID=GT,Number=1,Type=String,Description=\"g\">\n"
+                "#CHROM\tPOS\tID\tREF\tALT\tQUAL\tFILTER\tINFO\tFORMAT\ts1\n")
+        for k in range(n):
+            f.write(f"chr1\t{100 + 10 * k}\t.\tA\tC\t.\t.\t.\tGT\t0/1\n")
+    gts = []
+    with open(outp, "w") as out:
+        with GenotypeVcfWriter(command_line=None, in_path=inp, out_file=out) as w:
+            with VcfReader(inp, only_snvs=False, genotype_likelihoods=False, ignore_genotypes=True) as r:
+                for table in r:
+                    gls = [PhredGenotypeLikelihoods(t) for t in triples]
+                    # genotype.py: gt_prob = 1.0 - (10 ** (-gt_qual_threshold / 10.0)); geno = determine_genotype(likelihoods, gt_prob)
+                    gts = [determine_genotype(g, 1.0 - (10 ** (-thr / 10.0))) for g, thr in zip(gls, thrs)]
+                    table.set_genotype_likelihoods_of("s1", gls)
+                    table.set_genotypes_of("s1", gts)
+                    w.write_genotypes(table.chromosome, table, False)
+    recs = parse_out_vcf(outp)
+    if len(recs) != n:
+        ctx.fail(f"writer produced {len(recs)} records for {n} variants", {"kind": "writer"}, key="writer-records"); return
+    called = [None if g.is_none() else sum(g.as_vector()) for g in gts]
+    reqs = [{"op": "c08.conv", "gl": [f2b(x) for x in l], "g": g} for l, g in zip(triples, called)]
+    reqs2, idx2 = [], []
+    for k, (l, g, thr) in enumerate(zip(triples, called, thrs)):
+        m = max(l)
+        if m <= 1.0:
+            fr = Fraction(m)
+            reqs2.append({"op": "c08.gq", "a": fr.numerator, "b": fr.denominator, "thr": thr}); idx2.append(k)
+    answers = ctx.model.ask_many(reqs)
+    answers2 = dict(zip(idx2, ctx.model.ask_many(reqs2))) if reqs2 else {}
+    amb = 0
+    for k, (l, g, thr, rec, ans) in enumerate(zip(triples, called, thrs, recs, answers)):
+        ctx.evaluated()
+        c = rec["calls"][0]
+        case = {"kind": "writer", "gl": l, "thr": thr, "called": g, "written": {"GT": str(c.get("GT")), "GL": c.get("GL"), "GQ": c.get("GQ")}}
+        ctx.dist("writer GQ", "none" if c.get("GQ") is None else min(c["GQ"] // 10 * 10, 200))
+        # GT as determined
+        gt = c.get("GT")
+        alleles = None if gt is None or gt[0] is None or any(a is None for a in gt[0]) else gt[0]
+        if (None if alleles is None else sum(alleles)) != g:
+            ctx.fail(f"written GT {alleles} is not the determined genotype {g}", case, key="writer-gt")
+        # GL: log10 of the likelihood, floor -1000 (also for 0), as text with 6 significant digits
+        mgl = [b2f(x) for x in ans["GL"]]
+        wgl = c.get("GL")
+        if wgl is None or len(wgl) != 3 or any(x is None for x in wgl):
+            ctx.fail("no GL written", case, key="writer-gl")
+        else:
+            for j in range(3):
+                exp = max(math.log10(l[j]), -1000) if l[j] > 0 else -1000.0
+                if abs(wgl[j] - exp) > 6e-6 * abs(exp) + 1e-300:
+                    ctx.fail(f"GL[{j}] = {wgl[j]} for likelihood {l[j]!r}: log10 (floor -1000) is {exp!r}", case, key="writer-gl")
+                if mgl[j] != exp:
+                    ctx.disagree("c08.conv/GL", case, exp, mgl[j])
+        # GQ
+        if g is None:
+            if c.get("GQ") is not None:
+                ctx.fail("GQ written for ./.", case, key="writer-gq-on-nocall")
+            if ans.get("GQ") is not None:
+                ctx.disagree("c08.conv/GQ", case, None, ans.get("GQ"))
+            continue
+        q = 0
+        for j in range(3):
+            if j != g:
+                q = q + l[j]                 # what `sum(...)` does
+        if b2f(ans["q"]) != q:
+            ctx.disagree("c08.conv/geno_q", case, q, b2f(ans["q"]))
+        want = exact_gq(Fraction(q)) if q > 0 else 10000
+        if want is None:
+            amb += 1; continue
+        if c.get("GQ") != want:
+            ctx.fail(f"GQ {c.get('GQ')} written for a mass {q!r} of the other genotypes: min(round(-10 log10), 10000) = {want}", case, key="writer-gq")
+        if ans.get("GQ") != want:
+            ctx.disagree("c08.conv/GQ", case, want, ans.get("GQ"))
+        if not (-3300 <= c.get("GQ", 0) <= 10000):
+            ctx.fail(f"GQ {c.get('GQ')} outside [-3300, 10000]", case, key="writer-gq-range")
+        # threshold and GQ agree (normalised triples, mass not dominated by cancellation)
+        if abs(sum(l) - 1.0) <= 1e-15 and q >= 1e-9 and c.get("GQ") is not None and c["GQ"] < thr:
+            ctx.fail(f"genotype called at phred threshold {thr} but GQ is {c['GQ']}", case, key="writer-gq-below-threshold")
+        a2 = answers2.get(k)
+        if a2 is not None:
+            gt_prob = 1.0 - (10 ** (-thr / 10.0))
+            srt = sorted(l)
+            if abs(srt[2] - gt_prob) > 1e-12 and srt[2] > srt[1]:
+                # exact threshold test of the model = the float test of determine_genotype away from the boundary
+                if bool(a2["above"]) != (srt[2] > gt_prob):
+                    ctx.disagree("c08.gq/aboveThr", case, srt[2] > gt_prob, a2)
+        ctx.nontrivial("writer:" + json.dumps([l, thr]))
+    ctx.extra["writer_calls"] = ctx.extra.get("writer_calls", 0) + n
+    ctx.extra["writer_gq_near_tie_skipped"] = ctx.extra.get("writer_gq_near_tie_skipped", 0) + amb
+    shutil.rmtree(d, ignore_errors=True)
+
+
 def gt_edge_cases(ctx):
     """ties and thresholds on exact floats: real determine_genotype vs the rule vs the Lean model"""
     vals = [0.0, 0.1, 0.25, 1 / 3, 0.5, 0.9, 1.0]
@@ -531,6 +683,8 @@ def replay_case(ctx, batch, case):
         ctx.evaluated()
         if e != i:
             ctx.fail(f"determine_genotype({case['gl']}, {case['thr']}) = {i}, rule gives {e}", case, key="gt-rule")
+    elif case.get("kind") == "writer":
+        writer_cases(ctx, 400)
     elif case.get("kind") == "cli":
         ctx.observe("cli replay cases are regenerated from the seed, not replayed")
     else:
@@ -612,6 +766,9 @@ def run(ctx):
         batch.flush()
         ctx.extra["exhaustive_single_le3reads_le3cols"] = cnt
         ctx.extra["exhaustive"] = True
+
+    for _ in range((1 if ctx.quick else 8) * ctx.scale):
+        writer_cases(ctx, 400 if ctx.quick else 1500)
 
     import time
     ctx.extra["library_part_s"] = round(time.time() - ctx.t0, 1)
